@@ -304,7 +304,7 @@ def verus_lane(pid, tier, cov, ledger, findings, assumptions):
     cov['obligations'] += len(alg_ok)
     cov['discharged'] += sum(1 for v in alg_ok.values() if v)
     cov['back_ends']['verus+z3'] = {'obligations': n_ob, 'discharged': n_ok, 'smt_ms': res.get('smt_ms'), 'wall_s': round(res.get('wall_s', 0), 2),
-                                    'functions_verified_in_crate': res.get('verified'), 'errors_in_crate': res.get('errors'), 'cache': res.get('cache'),
+                                    'verified_on_retry_after_rlimit': res.get('verified_on_retry', []), 'functions_verified_in_crate': res.get('verified'), 'errors_in_crate': res.get('errors'), 'cache': res.get('cache'),
                                     'version': res.get('version')}
     cov['back_ends']['z3-nlsat (algebra lane, outside Verus)'] = {'lemmas': alg_res}
     cov['checker_cmd'] = res.get('cmd', '') + '   # on the file woven from /repo/src by vlib/weave.py (sha256 %s)' % w.sha[:16]
